@@ -54,7 +54,7 @@ def main():
         elif args[0] == "--jobs":
             jobs = int(args[1])
         args = args[2:]
-    ids = args or sorted(os.listdir(os.path.join(VERIF, "seeded")))
+    ids = args or sorted(d for d in os.listdir(os.path.join(VERIF, "seeded")) if os.path.isdir(os.path.join(VERIF, "seeded", d)))
     built = json.load(open(os.path.join(VERIF, "tools", "built.json")))
     with ThreadPoolExecutor(jobs) as ex:
         for line in ex.map(lambda s: one(s, checks, built), ids):
